@@ -1,8 +1,148 @@
-import Hidi
-namespace Hidi.Props.C14
-open Hidi
+/-
+  C14 — The exit sequence fires exactly when all its keys are down, and swallows that press.
 
-/-- placeholder obligation replaced by the real theorems below as they are proved -/
-theorem init_not_dead (cfg : Config) : (Dev.init cfg).dead = false := rfl
+  * `C14_signal_iff`        : a key event raises the signal iff it is a press after which every key of the
+                              (non-empty) exit sequence is in the key tracker;
+  * `C14_completing_press`  : that press emits the signal and nothing else, and changes nothing but the key tracker —
+                              no note, no action of its own, although the key may also be a note or action key;
+  * `C14_tracker_is_keys_down` : the key tracker is exactly the set of keys whose last event was a press (so
+                              "in the tracker" means "held now", pressed in any order);
+  * `C14_never_when_empty`  : with an empty sequence no event ever raises the signal;
+  * `C14_monitor`           : the monitor evaluated on the implementation never fires on the model.
+
+  Not modelled: the send on the signal channel blocks when that channel is full (capacity 1 in `main.go`).
+-/
+import HidiProofs.KeyHistories
+namespace Hidi.Props.C14
+open Hidi Hidi.Spec Hidi.EngineSim Hidi.KeyHist
+
+theorem C14_monitor (cfg : Config) (evs : List Ev) (disc : Bool)
+    (hacc : Accepted cfg = true) (hk : evs.all keyOnly = true) :
+    failsOf "C14" (checkAll (modelTrace cfg evs disc)) = [] :=
+  no_fails_of "C14" (by decide) cfg evs disc hacc hk
+
+theorem sig_not_mem_of_okOut {o : List Out} (h : o.all okOut = true) : Out.sig ∉ o := by
+  intro hm
+  have := List.all_eq_true.mp h _ hm
+  simp [okOut, isMidi] at this
+
+theorem pressOuts_no_sig (mode : Collision) (held : Bool) (ch n v : Nat) : Out.sig ∉ pressOuts mode held ch n v := by
+  unfold pressOuts noteOnMsg noteOffMsg
+  cases mode <;> cases held <;> simp
+
+theorem releaseOuts_no_sig (mode : Collision) (last : Bool) (ch n : Nat) : Out.sig ∉ releaseOuts mode last ch n := by
+  unfold releaseOuts noteOffMsg
+  cases mode <;> cases last <;> simp
+
+theorem panicMsgs_no_sig (ch : Nat) : Out.sig ∉ panicMsgs ch := by
+  unfold panicMsgs; simp
+
+/-- **the signal is raised exactly on a press that completes the sequence** -/
+theorem C14_signal_iff {cfg : Config} {d : Dev} (hd : DInv cfg d) (sub : Sub) (code : Code) (val : Int) :
+    Out.sig ∈ (d.handleKey sub code val).2 ↔ (val = 1 ∧ (kt d code val).exitComplete = true) := by
+  rw [handleKey_eq hd]
+  constructor
+  · intro h
+    split at h
+    · assumption
+    · exfalso
+      cases ha : alookup code cfg.actions with
+      | some a =>
+        rw [ha] at h
+        simp only at h
+        split at h
+        · rcases (actPress_model (kt_dinv hd code val) a).2.2 with e | ⟨-, e⟩
+          · rw [e] at h; simp at h
+          · rw [e] at h; exact panicMsgs_no_sig _ h
+        · split at h <;> simp at h
+      | none =>
+        rw [ha] at h
+        simp only at h
+        split at h
+        · rw [noteOn_eq (kt_dinv hd code val)] at h
+          split at h
+          · simp at h
+          · exact pressOuts_no_sig _ _ _ _ _ h
+        · split at h
+          · rw [noteOff_eq (kt_dinv hd code val)] at h
+            split at h
+            · simp at h
+            · exact releaseOuts_no_sig _ _ _ _ h
+          · simp at h
+  · intro h
+    rw [if_pos h]
+    simp
+
+/-- **the completing press is swallowed**: signal only; nothing but the key tracker changes -/
+theorem C14_completing_press {cfg : Config} {d : Dev} (hd : DInv cfg d) (sub : Sub) (code : Code)
+    (h : (kt d code 1).exitComplete = true) :
+    d.handleKey sub code 1 = ({ d with keyTr := sinsert code d.keyTr }, [.sig]) := by
+  rw [handleKey_eq hd, if_pos ⟨rfl, h⟩]
+  simp [kt]
+
+/-- what "complete" means: the sequence is non-empty and each of its keys is in the tracker after this press -/
+theorem C14_complete_iff (d : Dev) (code : Code) :
+    (kt d code 1).exitComplete = true ↔
+      d.cfg.exitSeq ≠ [] ∧ ∀ k ∈ d.cfg.exitSeq, k ∈ d.keyTr ∨ k = code := by
+  unfold Dev.exitComplete kt
+  simp only [if_true, Bool.and_eq_true, Bool.not_eq_true', List.isEmpty_eq_false_iff, List.all_eq_true,
+    decide_eq_true_eq, mem_sinsert]
+
+/-- the key tracker after a history is the set of keys whose last event was a press -/
+theorem C14_tracker_is_keys_down {cfg : Config} (hacc : Accepted cfg = true) {evs : List Ev}
+    (hk : evs.all keyOnly = true) : ((Dev.init cfg).run evs).1.keyTr = keysDown evs [] := by
+  have hinv := final_inv hacc hk
+  rw [← modelSteps_final, ← hinv.down, finalBook_down]
+
+/-- **empty sequence: never** -/
+theorem C14_never_when_empty {cfg : Config} {d : Dev} (hd : DInv cfg d) (hempty : cfg.exitSeq = [])
+    (sub : Sub) (code : Code) (val : Int) : Out.sig ∉ (d.handleKey sub code val).2 := by
+  rw [C14_signal_iff hd]
+  rintro ⟨-, h⟩
+  unfold Dev.exitComplete at h
+  rw [(kt_frame d code val).1, hd.cfg_eq, hempty] at h
+  simp at h
+
+/-- the signal count of a whole history: with an empty sequence it is zero -/
+theorem C14_never_when_empty_history {cfg : Config} (hacc : Accepted cfg = true) (hempty : cfg.exitSeq = [])
+    (evs : List Ev) (hk : evs.all keyOnly = true) : Out.sig ∉ allOuts (Dev.init cfg) evs := by
+  have hnone := C14_monitor cfg evs false hacc hk
+  -- direct argument by induction with the invariant
+  suffices h : ∀ (evs : List Ev) (d : Dev) (b : Book), Inv cfg d b → evs.all keyOnly = true →
+      Out.sig ∉ allOuts d evs from
+    h evs _ _ (inv_init hacc) hk
+  clear hnone hk evs
+  intro evs
+  induction evs with
+  | nil => intro d b _ _; simp [allOuts, modelSteps]
+  | cons e es ih =>
+    intro d b hinv hk
+    simp only [List.all_cons, Bool.and_eq_true] at hk
+    have hstep := (step_sim hacc hinv 0 e (keyOnly_ne hk.1)).1
+    simp only [allOuts, modelSteps, List.flatMap_cons, List.mem_append, not_or]
+    refine ⟨?_, ih _ _ hstep hk.2⟩
+    unfold Dev.step
+    rw [hinv.dinv.dead]
+    simp only [Bool.false_eq_true, if_false]
+    cases e with
+    | syn => simp
+    | midiIn x y z => simp
+    | abs s n c v => simp [keyOnly] at hk
+    | key sub code val =>
+      simp only
+      split
+      · simp
+      · exact C14_never_when_empty hinv.dinv hempty sub code val
+
+/-! ### non-vacuity: ESC is panic *and* in the sequence; the completing press does not panic -/
+
+def exCfg : Config :=
+  { maps := [{ name := "Piano", midi := [(("", 30), ⟨60, 0⟩)], analog := [], dz := [], defDz := [] }],
+    actions := [(1, .panic)], exitSeq := [1, 30], mode := .off, defOct := 0, defSemi := 0, defCh := 1,
+    defMap := 0, vel := 64, axes := [] }
+
+example : ((Dev.init exCfg).run [.key "" 30 1, .key "" 1 1, .key "" 1 0, .key "" 30 0]).2 =
+    [[noteOnMsg 0 60 64], [.sig], [], [noteOffMsg 0 60]] := by decide
+example : ((Dev.init exCfg).run [.key "" 1 1, .key "" 30 1]).2 = [panicMsgs 0, [.sig]] := by decide
 
 end Hidi.Props.C14
